@@ -38,14 +38,14 @@ fn gen_instance(rng: &mut Rng) -> Instance {
     }
 }
 
-struct RunOut {
-    code: Option<i32>,
-    stdout: String,
-    stderr: String,
+pub struct RunOut {
+    pub code: Option<i32>,
+    pub stdout: String,
+    pub stderr: String,
 }
 
 /// Runs a binary with a generous wall-clock watchdog (a firing watchdog is inconclusive, never a verdict).
-fn run(bin: &Path, args: &[String]) -> Option<RunOut> {
+pub fn run(bin: &Path, args: &[String]) -> Option<RunOut> {
     use std::io::Read;
     let mut child = Command::new(bin)
         .args(args)
@@ -101,7 +101,7 @@ pub fn answer_shaped(line: &str) -> bool {
     line.starts_with('[') && line.ends_with(']')
 }
 
-fn parse_witness(apx: bool, line: &str) -> Option<Vec<String>> {
+pub fn parse_witness(apx: bool, line: &str) -> Option<Vec<String>> {
     if apx {
         let inner = line.strip_prefix('[')?.strip_suffix(']')?;
         if inner.is_empty() {
